@@ -72,6 +72,16 @@ type World struct {
 	cmdDone   map[string]chan struct{}
 	extra     KV
 	hmu       sync.RWMutex
+	echo      echoStore
+	nclaims   int
+	closers   []func()
+}
+
+// claims: requests currently registered at targets (claims minus ends), from the hooks.
+func (w *World) claims() int {
+	w.mu.Lock()
+	defer w.mu.Unlock()
+	return w.nclaims
 }
 
 func (w *World) setHandler(h http.Handler) {
@@ -234,6 +244,9 @@ func (w *World) teardown() {
 	}
 	for _, ft := range w.targets {
 		ft.close()
+	}
+	for _, f := range w.closers {
+		f()
 	}
 	for _, tr := range trs {
 		tr.CloseIdleConnections()
@@ -508,6 +521,13 @@ func (w *World) onEmit(event string, objs ...any) {
 	switch event {
 	case "claim", "claim_refused", "end_inflight":
 		req := objs[0].(*http.Request)
+		w.mu.Lock()
+		if event == "claim" {
+			w.nclaims++
+		} else if event == "end_inflight" {
+			w.nclaims--
+		}
+		w.mu.Unlock()
 		rid := ridOf(req)
 		if rid == "" {
 			return
@@ -559,6 +579,20 @@ func (w *World) onEmit(event string, objs ...any) {
 	case "pause_state":
 		kv["pc"] = w.id("pc", objs[0])
 		kv["state"] = objs[1]
+	case "buffer_write":
+		b := objs[0].(*server.Buffer)
+		maxBytes, maxMem, mem, disk, over, _ := server.VerifBufferStats(b)
+		kv["b"] = w.id("buffer", b)
+		kv["n"] = objs[1]
+		kv["max_bytes"], kv["max_mem"], kv["mem"], kv["disk"], kv["over"] = maxBytes, maxMem, mem, disk, over
+		w.rec.Emit("bufw", kv)
+		return
+	case "buffer_close":
+		b := objs[0].(*server.Buffer)
+		_, _, mem, disk, _, spill := server.VerifBufferStats(b)
+		_, statErr := os.Stat(spill)
+		w.rec.Emit("bufc", KV{"b": w.id("buffer", b), "mem": mem, "disk": disk, "spill": spill, "gone": spill == "" || statErr != nil})
+		return
 	case "hc_new":
 		hc := objs[0].(*server.HealthCheck)
 		w.mu.Lock()
